@@ -68,6 +68,10 @@ def _test_kind(test):
                 return "(" + ",".join(names) + ")"
         if isinstance(fn, ast.Attribute) and fn.attr == "is_dataclass":
             return "dataclass"
+    # dataclass INSTANCES (fix F45): `dataclasses.is_dataclass(elt) and not isinstance(elt, type)`
+    if isinstance(test, ast.BoolOp) and isinstance(test.op, ast.And) and len(test.values) == 2 \
+            and ast.unparse(test.values[1]) == "not isinstance(elt, type)" and _test_kind(test.values[0]) == "dataclass":
+        return "dataclass"
     raise Unrecognised(f"unrecognised dispatch test: {ast.unparse(test)}")
 
 
